@@ -31,6 +31,14 @@ def alt_at(jd_ut, lat, lon):
 
 
 def sweep(rep, want, stats_only=False):
+    if not stats_only:
+        try:
+            kreplay.build()
+        except Inconclusive as e:
+            # a changed tree whose private signatures / struct shapes no longer fit the kernel wrappers: judge through the public API
+            rep.inconclusive.append("kernel replay wrappers do not compile against this tree; the ephemeris sweep ran through the public API instead")
+            return public_sweep(rep, want, with_grid=True, tag="ephemeris ASSUMPTION sweep through the public API (kernel wrappers unavailable)")
+        public_sweep(rep, want, with_grid=False, tag="seam-directed public-API sweep")
     pts = grid(8000 if getattr(rep, "tier", "quick") == "thorough" else 400)
     eph = [{"api": "k_ephemeris", "date": d.isoformat(), "gmt": g, "lat": la, "lon": lo, "elev": 0.0} for d, (la, lo, g) in pts]
     tri = kreplay.run(eph)
@@ -134,3 +142,87 @@ def confirm_jd_candidates(rep, results, want=("dhuhr",)):
             hit = True
             break
     return hit
+
+
+# ---------------------------------------------------------------------------------------------- public-API variant of the sweep
+
+def equinox_instant(y):
+    """Julian Day (UT) at which the independent ephemeris' apparent right ascension passes 360 -> 0 in March of year y (bisection)."""
+    lo = datetime.date(y, 3, 17).toordinal() + 1721424.5
+    hi = datetime.date(y, 3, 24).toordinal() + 1721424.5
+    f = lambda t: oracle.angdiff(oracle.sun_apparent(t)[0], 0.0)
+    for _ in range(50):
+        mid = (lo + hi) / 2
+        if f(mid) < 0:
+            lo = mid
+        else:
+            hi = mid
+    return (lo + hi) / 2
+
+
+def seam_public_cases(years=None, minutes=None):
+    """Seam-directed PUBLIC inputs: GMT offsets (a continuous parameter) chosen so that local midnight of a date falls within +-20 min
+    (1-min steps) of the instant the Sun's right ascension wraps 360 -> 0, longitudes on either side of the zone meridian (sign of the
+    parallax in right ascension at local midnight), and the three dates whose ephemeris triple contains that midnight. A defect that
+    needs one of the three samples within arc-seconds of the seam (e.g. wrap detection on one RA and normalisation of another) shows
+    here as a Dhuhr that is hours away from the transit."""
+    years = years or list(range(1603, 2400, 36))
+    minutes = minutes if minutes is not None else [x * 1.0 for x in range(-20, 21)]
+    cases = []
+    for y in years:
+        t0 = equinox_instant(y)
+        for dm in minutes:
+            target = t0 + dm / 1440.0
+            o = int(round(target - 1721424.5))
+            g = 24.0 * (o + 1721424.5 - target)           # in [-12, 12]
+            g = max(-12.0, min(12.0, g))
+            for dl in (-25.0, 25.0):
+                lon = max(-180.0, min(180.0, 15.0 * g + dl))
+                for dd in (-1, 0, 1):
+                    cases.append({"api": "prayer_times_dt", "lat": 0.0 if dl < 0 else 35.0, "lon": lon, "gmt": g, "elev": 0.0,
+                                  "date": datetime.date.fromordinal(o + dd).isoformat(), "params": {"method": "Isna", "round": "None", "ext": "None"}})
+    return cases
+
+
+def public_sweep(rep, want, with_grid=True, tag="public-API sweep"):
+    """The sweep's criteria judged through prayer_times_dt itself (no kernel wrappers): used for the seam-directed public inputs on
+    every run and as the fallback for the whole grid when the kernel replay wrappers do not compile against a changed tree."""
+    from .. import replay
+    cases = seam_public_cases()
+    if with_grid:
+        cases += [{"api": "prayer_times_dt", "lat": la, "lon": lo, "gmt": g, "elev": 0.0, "date": d.isoformat(),
+                   "params": {"method": "Isna", "round": "None", "ext": "None"}} for d, (la, lo, g) in grid(400)]
+    outs = replay.run(cases, timeout=600)
+    found = {}
+    worst = 0.0
+    n = 0
+    for c, o in zip(cases, outs):
+        if "times" not in o:
+            found.setdefault("eph-panic", []).append(("prayer_times_dt fails on %s lat %s lon %s gmt %.5f: %r" % (c["date"], c["lat"], c["lon"], c["gmt"], o), c, o))
+            continue
+        n += 1
+        jd0 = datetime.date.fromisoformat(c["date"]).toordinal() + 1721424.5 - c["gmt"] / 24.0
+        t = o["times"]
+        def at(nm):
+            return jd0 + (t[nm]["secs"] + t[nm].get("nanos", 0) / 1e9) / 86400.0
+        if t.get("Dhuhr") is not None:
+            # the reported clock time is taken mod 24 h: judge the hour angle at that clock time on the civil date
+            _, H = alt_at(at("Dhuhr"), c["lat"], c["lon"])
+            worst = max(worst, abs(H) * 240)
+            if "dhuhr" in want and abs(H) * 240 > 11.0:
+                found.setdefault("eph-dhuhr", []).append(("independent ephemeris: hour angle at the reported Dhuhr is %.1f s on %s at lat %s lon %s gmt %.5f "
+                                                          "(prayer_times_dt, unrounded)" % (H * 240, c["date"], c["lat"], c["lon"], c["gmt"]), c, o))
+        if abs(c["lat"]) <= 60:
+            for nm, tgt, tol, w in (("Shurooq", -0.833, 0.06, "riseset"), ("Maghrib", -0.833, 0.06, "riseset"), ("Fajr", -15.0, 0.5, "twilight"), ("Isha", -15.0, 0.5, "twilight")):
+                if w in want and t.get(nm) is not None:
+                    a, _ = alt_at(at(nm), c["lat"], c["lon"])
+                    if abs(a - tgt) > tol:
+                        found.setdefault("eph-" + w, []).append(("independent ephemeris: Sun at %.3f deg at the reported %s on %s lat %s lon %s gmt %.5f" %
+                                                                 (a, nm, c["date"], c["lat"], c["lon"], c["gmt"]), c, o))
+    for key, items in found.items():
+        rep.violation(key, items[0][0] + (" (+%d more inputs)" % (len(items) - 1) if len(items) > 1 else ""), [items[0][1]], items[0][2])
+    rep.assumptions.append("%s (native, sampling): %d prayer_times_dt calls incl. %d seam-directed inputs (local midnight within +-20 min of the Sun's "
+                           "right ascension wrapping, 23 years) judged by the independent ephemeris; worst Dhuhr hour angle %.1f s"
+                           % (tag, n, len(seam_public_cases()), worst))
+    rep.extra["public_api_sweep"] = {"calls": n, "worst_dhuhr_s": round(worst, 2)}
+    return bool(found)
